@@ -155,7 +155,10 @@ def params_walk(walk):
                         from ruamel.yaml import YAML
                         pth = os.path.join(tmpdir, f'p{k}.yml')
                         with open(pth, 'w') as f:
-                            YAML(typ='safe').dump(nested(has, v), f)
+                            if has:
+                                YAML(typ='safe').dump(nested(has, v), f)
+                            else:
+                                f.write('# every entry of the parameter file is commented out\n# MSA: 3000\n')
                         ampycloud.set_prms(pth)
                     elif op == 'resetall':
                         ampycloud.reset_prms()
